@@ -107,7 +107,7 @@ def _pool_side(mr, ev, want):
         if e == 0:
             k = nd.draw(0, 1)
             x = p._pool[k]
-            status = (-9, 0, 1, 155)[nd.draw(0, 3)]
+            status = (-9, 0, 155)[nd.draw(0, 2)]
             abnormal = status not in (0, bp.EX_RECYCLE)
             x.die(status)
             n_steps, n_started = len(steps), w.started
@@ -133,7 +133,7 @@ def _pool_side(mr, ev, want):
             if w.started != n_started + 1 or len(p._pool) != 2:
                 return fail('C11:pool:replacement-not-started')
         elif e == 1:
-            w.adv(nd.draw(0, 12))
+            w.adv((0, 5, 11)[nd.draw(0, 2)])
         else:
             # a job is accepted: the count starts afresh
             r = p.apply_async(W.val, ('j',))
@@ -147,7 +147,7 @@ def _pool_side(mr, ev, want):
     return True
 
 
-NEV = tier(4, 6)
+NEV = tier(3, 4)
 
 
 def h_pool_side(code: int) -> bool:
@@ -156,7 +156,8 @@ def h_pool_side(code: int) -> bool:
     post: _
     """
     try:
-        return _pool_side(1 + code % 2, NDCode(code // 2), None)
+        nd = NDCode(code)
+        return _pool_side(1 + nd.draw(0, 1), nd, None)
     except Prune:
         return True
 
@@ -167,7 +168,8 @@ def h_pool_side_twin(code: int) -> bool:
     post: _
     """
     try:
-        return _pool_side(1 + code % 2, NDCode(code // 2), 'raise')
+        nd = NDCode(code)
+        return _pool_side(1 + nd.draw(0, 1), nd, 'raise')
     except Prune:
         return True
 
